@@ -9,7 +9,7 @@ origin classes of a u32 / i64 / Option<u32> value:
   RAW     an element of some other container (vector indexing): not a translated index
   UNKNOWN anything else
 """
-from .ir import walk, strip, call_target, substitute
+from .ir import walk, strip, call_target, substitute, resolve_closure_params
 
 PASS_ARG0 = {'copied', 'cloned', 'unwrap', 'expect', 'unwrap_or_default', 'as_ref', 'as_mut', 'filter', 'into', 'from',
              'clone', 'deref', 'deref_mut', 'borrow', 'borrow_mut', 'take', 'as_deref', 'unwrap_unchecked', 'to_owned'}
@@ -71,7 +71,10 @@ class Origins:
         k = e[0]
         if k == 'const':
             return {'CONST'}
-        if k in ('ref', 'deref', 'upvar', 'cast', 'downcast'):
+        if depth == 0:
+            e = resolve_closure_params(self.f, e)
+            k = e[0]
+        if k in ('ref', 'deref', 'upvar', 'cast', 'downcast', 'payload'):
             return self.origin(e[1], seen, depth + 1)
         if k == 'un':
             return self.origin(e[2], seen, depth + 1)
